@@ -43,7 +43,11 @@ def _fdiv(x, y):
 class Q(st.Sym):
     """symbolic rational with symbolic floor / ceil / int; `is_int`: provably integer valued"""
     __slots__ = ("is_int",)
-    __hash__ = None
+
+    def __hash__(self):
+        # by identity: a (correct) memo keyed by its full input must not make the code untraceable; two distinct
+        # symbolic values never meet in one dictionary slot (a lookup compares by identity first)
+        return id(self)
 
     def __init__(self, e, f, is_int=False):
         super().__init__(e, f)
@@ -317,6 +321,8 @@ def trace_load_clip(s, e, sr, audio_dir=None):
     with patched(*_io_patches(log, token)):
         arr = IO.load_clip(clip) if audio_dir is None else IO.load_clip(clip, audio_dir=audio_dir)
     axis = _clip_result(arr, log, token, "load_clip")
+    _need(clip.start_time is s and clip.end_time is e and clip.recording is rec and rec.samplerate is sr
+          and rec.path == Path("rec.wav"), "load_clip: the clip / recording handed in was written to")
     call = log[0]
     _need(Path(call["path"]) == (rec.path if audio_dir is None else Path(audio_dir) / rec.path),
           "load_clip: path handed to load_audio")
@@ -332,6 +338,8 @@ def trace_load_recording(d, sr, audio_dir=None):
     with patched(*_io_patches(log, token)):
         arr = IO.load_recording(rec) if audio_dir is None else IO.load_recording(rec, audio_dir=audio_dir)
     axis = _clip_result(arr, log, token, "load_recording")
+    _need(rec.duration is d and rec.samplerate is sr and rec.path == Path("rec.wav"),
+          "load_recording: the recording handed in was written to")
     call = log[0]
     _need(Path(call["path"]) == (rec.path if audio_dir is None else Path(audio_dir) / rec.path),
           "load_recording: path handed to load_audio")
@@ -402,6 +410,13 @@ class _ArrStub:
     def get_axis_num(self, dim):
         return self.dims.index(dim)
 
+    def untouched(self, step):
+        """the traced function wrote nothing into its argument: the attrs of the array and of its coordinates
+        are the very objects, with the very entries, they were before the call"""
+        return (self.attrs == {} and self.channel.attrs == {} and self.coords["time"] is self.time
+                and list(self.time.attrs) == ["step"] and self.time.attrs["step"] is step
+                and list(self.coords) == ["time", "channel"] and self.data is self.values)
+
 
 def trace_resample(n, step, target):
     import numpy as np
@@ -427,6 +442,7 @@ def trace_resample(n, step, target):
     _need(call["x"] is values and call["t"] is times and call["axis"] == 0 and call["window"] is None
           and call["domain"] == "time", "resample: arguments of scipy.signal.resample")
     _need(res["data"] is out and tuple(res["dims"]) == arr.dims, "resample: data / dims of the result")
+    _need(arr.untouched(step), "resample: the input array (its attrs / the attrs of its coordinates) was written to")
     var = res["coords"]["time"]
     _need(isinstance(var, Rec) and var.kind == "Variable" and var["data"] is new_times,
           "resample: the time coordinate is not scipy's resampled times")
@@ -447,7 +463,7 @@ class _Vals(_Tok):
         raise st.Untraceable("len() of the symbolic sample array (use .shape / .sizes)")
 
 
-def trace_spectrogram(step, w, h, t0, n):
+def trace_spectrogram(step, w, h, t0, n, opts=None):
     """`n`: the (symbolic) number of audio samples, seen by the code as `audio.sizes["time"]`
     (or the shape of the data / the size of the time coordinate): the repaired code clamps `nperseg`
     to it (fix C15-3), which the trace records as the comparison Python's `min` makes"""
@@ -466,13 +482,17 @@ def trace_spectrogram(step, w, h, t0, n):
         (SP, "xr", Proxy(xr, DataArray=_recorder("DataArray", xr.DataArray.__init__))),
         (SP, "int", sym_int)]
     with patched(*patches):
-        res = SP.compute_spectrogram(arr, w, h)
+        # `opts` = (window_type, detrend, padded, boundary) handed over *positionally* in the documented order
+        res = SP.compute_spectrogram(arr, w, h) if opts is None else SP.compute_spectrogram(arr, w, h, *opts)
     _need(isinstance(res, Rec) and res.kind == "DataArray", "compute_spectrogram: result is not built with xr.DataArray")
     _need(len(log) == 1, f"compute_spectrogram: scipy.signal.stft called {len(log)} times")
     call = log[0]
     _need(call["x"] is values and call["axis"] == 0, "compute_spectrogram: data / axis handed to stft")
-    _need(call["boundary"] == "zeros" and call["padded"] is True and call["return_onesided"] is True
-          and call["nfft"] is None, "compute_spectrogram: boundary / padded / return_onesided / nfft handed to stft")
+    want = ("hann", False, True, "zeros") if opts is None else opts
+    _need(call["window"] == want[0] and call["detrend"] == want[1] and call["padded"] is want[2]
+          and call["boundary"] == want[3] and call["return_onesided"] is True and call["nfft"] is None,
+          "compute_spectrogram: window / detrend / padded / boundary / return_onesided / nfft handed to stft")
+    _need(arr.untouched(step), "compute_spectrogram: the input array (its attrs / the attrs of its coordinates) was written to")
     _need(tuple(res["dims"]) == ("frequency", "time", "channel"), f"compute_spectrogram: dims {res['dims']!r}")
     fvar, tvar = res["coords"]["frequency"], res["coords"]["time"]
     for v in (fvar, tvar):
@@ -501,7 +521,7 @@ IMPORTS = ["Proofs.Lemmas.Audio", "SoundeventModel.Tactics"]
 
 
 def register(ctx):
-    """register the nine ties; each is an obligation `∀ inputs, traced = plan`"""
+    """register the ten ties; each is an obligation `∀ inputs, traced = plan`"""
     V = Q.var
     R4, R6 = "Rat × Rat × Rat × Rat", "Rat × Rat × Rat × Rat × Rat × Rat"
     ties = [
@@ -526,6 +546,12 @@ def register(ctx):
         ("ext_spectrogram", lambda: trace_spectrogram(V("st"), V("w"), V("h"), V("t0"), V("n")),
          ["st", "w", "h", "t0", "n"], R6,
          "some (SE.Audio.stftPlanTuple st w h t0 n)", "spectrogram"),
+        # the options (passed positionally in the documented order) are forwarded to scipy untouched and do not
+        # enter the plan: same window, overlap and advertised steps as the default call (C15_stft_options_same_steps)
+        ("ext_spectrogram_options",
+         lambda: trace_spectrogram(V("st"), V("w"), V("h"), V("t0"), V("n"), ("hamming", "constant", False, None)),
+         ["st", "w", "h", "t0", "n"], R6,
+         "some (SE.Audio.stftPlanTuple st w h t0 n)", "spectrogram_options"),
     ]
     trees = {}
     for name, thunk, variables, ret, term, op in ties:
